@@ -354,8 +354,11 @@ class RequirePosedge(Fragment):
 
 def _add_name(assigned_names, name):
     if name in assigned_names:
-        name = f"{name}${len(assigned_names)}"
-        assert name not in assigned_names
+        # The suffixed name may itself be taken by a user-chosen name of the same form.
+        index = len(assigned_names)
+        while f"{name}${index}" in assigned_names:
+            index += 1
+        name = f"{name}${index}"
     assigned_names.add(name)
     return name
 
